@@ -31,7 +31,7 @@ DESCRIPTIONS_HOSTILE = [
 
 class DocGen:
     def __init__(self, rng, serial, names=None, hostile_descriptions=False, f22_titles=0.0,
-                 untitled=0.5, cross_file=0.4, defaults=0.15, formats=False, lookalikes=True):
+                 untitled=0.5, cross_file=0.4, defaults=0.15, formats=False, lookalikes=True, coincident_names=0.0):
         self.rng = rng
         self.serial = serial
         self.names = names or (gs.PLAIN_NAMES + gs.RENAMING_NAMES)
@@ -42,6 +42,8 @@ class DocGen:
         self.defaults = defaults
         self.formats = formats
         self.lookalikes = lookalikes
+        self.coincident_names = coincident_names
+        self.coincident_used = 0
         self.title_count = 0
         self.objects = []  # object schemas created so far (for duplication)
         self.all_titled = True
@@ -84,6 +86,20 @@ class DocGen:
         if rng.random() < 0.5:
             out["description"] = self.description()
         names = rng.sample(self.names, k=rng.randint(0, 3))
+        if rng.random() < self.coincident_names:
+            # member names that COINCIDE with something else in the generated module or in the library: the
+            # name of a class of this document, a name the module imports, the private-name prefix of the class
+            # itself, the labeller's annotation key
+            from vlib.checks.c12 import expected_class_name  # pylint: disable=import-outside-toplevel
+
+            own = expected_class_name(out["title"]) if isinstance(out.get("title"), str) else ""
+            others = [expected_class_name(o["title"]) for o in self.objects if isinstance(o.get("title"), str)]
+            pool = ["String", "Property", "Maybe", "List", "Object", "Array", "Element", "Any", "Union", "Integer",
+                    "_x_autotitle"] + [name for name in others if name] + ([f"_{own}__id", own] if own else [])
+            extra = rng.choice(pool)
+            if extra and extra not in names:
+                names = [extra] + names if rng.random() < 0.5 else names + [extra]
+                self.coincident_used += 1
         if names:
             out["properties"] = {}
             for name in names:
